@@ -31,9 +31,13 @@ for f in sorted(glob.glob('/verif/seeded/*/meta.json')):
     if own and own[0]['exit'] == '1':
         det = 'yes: ' + '; '.join(own[0]['violation_classes'])[:140]
     elif own:
-        det = f"NO (exit {own[0]['exit']})"
+        others = [x for x in m.get('checks_run_against_it', []) if x['check'] != m['property'] and x['exit'] == '1']
+        if others:
+            det = f"by {others[0]['check']} (the property it really breaks): " + '; '.join(others[0]['violation_classes'])[:110]
+        else:
+            det = f"NO (exit {own[0]['exit']})"
     else:
-        det = 'not run yet'
+        det = 'not re-run in the last self-test (detected when it was processed, section 11.5)'
     note = m.get('detection_note', '')
     out.append(f"| {m['name']} | {m['change']} | {m['needs_in_order_to_manifest']} | {det}{(' — ' + note) if note else ''} |")
 out.append("")
